@@ -343,6 +343,8 @@ def run_harness(exe, args, scen_path, trace_path, timeout=1200, env=None):
     e["TSAN_OPTIONS"] = "exitcode=79:halt_on_error=0:second_deadlock_stack=1"
     e.update(env or {})
     cmd = [exe] + list(args) + ["--in", scen_path, "--out", trace_path, "--seed", str(seed())]
+    if "--max-seconds" not in cmd:
+        cmd += ["--max-seconds", str(int(timeout * 0.75))]     # the driver stops by itself (and says what it skipped) before it is killed
     t0 = time.time()
     try:
         r = subprocess.run(cmd, env=e, stdout=subprocess.PIPE, stderr=subprocess.STDOUT, timeout=timeout)
@@ -356,6 +358,10 @@ def run_harness(exe, args, scen_path, trace_path, timeout=1200, env=None):
     if os.path.exists(cp):
         with open(cp) as f:
             crashes = [json.loads(x) for x in f if x.strip()]
+    m = re.search(r'"skipped":(\d+)', out)
+    if m and int(m.group(1)):
+        log("[replay] WARNING: %s stopped early (%d crashed / hung scenarios, or its time budget): %s scenarios were not run" % (
+            os.path.basename(exe), len(crashes), m.group(1)))
     return {"wall": time.time() - t0, "crashes": crashes, "out": out}
 
 
